@@ -99,24 +99,10 @@ def run(chk):
     from . import c04
     c04.run(AliasedCheck(chk, {"C04.R2": "C09.R7", "C04.R3": "C09.R7"}))
 
-    class _Rewraps(AliasedCheck):
-        """Of C04.R5 only the detach / clone / move re-wraps belong here: Parameter(), freeze-again, copy.deepcopy and Module.to run them on
-        the packed payload of a frozen low-bit weight (seed C09-51). What in-place ops do to a packed tensor is C04's own clause (F52)."""
-
-        def require(self, rule, site, cond, what, function="", tag="", witness=""):
-            if rule == "C04.R5" and tag != "dispatch re-wrap":
-                return cond
-            return super().require(rule, site, cond, what, function, tag, (witness + " - run on the payload of a frozen int2/int4 weight by Parameter(), copy.deepcopy and Module.to") if witness else witness)
-
-        def bad(self, rule, site, function, tag, detail, witness):
-            if rule == "C04.R5" and tag != "dispatch re-wrap":
-                return
-            super().bad(rule, site, function, tag, detail, witness)
-
-        def floor(self, rule, n, minimum, what):
-            pass
-
-    c04.run(_Rewraps(chk, {"C04.R5": "C09.R7"}))
+    # Of C04.R5 only the detach / clone / move re-wraps belong here: Parameter(), freeze-again, copy.deepcopy and Module.to run them on the
+    # packed payload of a frozen low-bit weight (seed C09-51). What in-place ops do to a packed tensor is C04's own clause (F52).
+    from ..report import TagFilteredAlias
+    c04.run(TagFilteredAlias(chk, {"C04.R5": "C09.R7"}, {"dispatch re-wrap"}, " - run on the payload of a frozen int2/int4 weight by Parameter(), copy.deepcopy and Module.to"))
     if chk.pid == "C09":
         # "one scale (and zero-point) per output index or group": the optimizers reduce over every other dimension (C03.R1)
         from . import c03
